@@ -35,12 +35,13 @@ const repoModule = "github.com/oneconcern/datamon"
 var sourceDeps = []string{
 	"strings", "bytes", "unicode", "unicode/utf8", "unicode/utf16", "path", "sort", "strconv", "io",
 	"container/list", "container/heap", "encoding/binary", "encoding/hex", "bufio", "math/bits", "slices", "cmp",
-	"context", "io/ioutil", "path/filepath", "hash/crc32", "math", "time", "encoding/base64", "internal/byteorder", "internal/stringslite", "internal/filepathlite",
+	"context", "io/ioutil", "path/filepath", "hash/crc32", "math", "time", "encoding/base64", "internal/byteorder", "internal/stringslite", "internal/filepathlite", "io/fs", "internal/oserror",
 	"github.com/hashicorp/go-immutable-radix",
 	"github.com/hashicorp/golang-lru", "github.com/hashicorp/golang-lru/simplelru",
 	"github.com/segmentio/ksuid",
 	"golang.org/x/sync/errgroup",
 	"github.com/blang/semver",
+	"github.com/spf13/afero",
 }
 
 type HarnessFile struct {
